@@ -1,6 +1,8 @@
 package checks
 
 import (
+	v1 "github.com/DataDog/extendeddaemonset/api/v1alpha1"
+
 	"fmt"
 	"testing"
 	"time"
@@ -54,6 +56,14 @@ func TestC04(t *testing.T) {
 		return do(do(s, evb("setTemplate", edsKey, "A")), ev("R_eds", edsKey))               // A is the canary
 	}
 	scs = append(scs, again)
+	// a template whose own metadata carries the canary label key with another value (legal, if unusual): the canary pods
+	// must still end up labelled as canary pods
+	lbl := "B+label:" + v1.ExtendedDaemonSetReplicaSetCanaryLabelKey + "=false"
+	labelled := corpusS3([]string{"n1", "n2"}, "1", "auto", 1, &w.Alpha{Kubectl: []string{"canary-validate"}, PodDev: []string{"fail"}})
+	labelled.name = "S3-canary-1-template-carries-canary-label-key"
+	labelled.tpls = []string{"A", lbl}
+	labelled.first = []w.Event{evb("setTemplate", edsKey, lbl)}
+	scs = append(scs, labelled)
 	if h.Thorough() {
 		faulty := canaryDev()
 		faulty.EDSFaults = []string{"lost:update ExtendedDaemonSet", "reject:list Node", "reject:list Pod"}
@@ -61,7 +71,7 @@ func TestC04(t *testing.T) {
 		scsExtra := corpusS3(n3, "2", "auto", 1, faulty)
 		scsExtra.name = "S3-canary-2-auto-with-faults"
 		n4 := []string{"n1", "n2", "n3", "n4"}
-		scs = []scOpt{scsExtra, edits, corpusS3(n3, "1", "auto", 2, canaryDev()), corpusS3(n4, "50%", "auto", 2, canaryDev()), corpusS3(n4, "2", "manual", 1, canaryDev())}
+		scs = []scOpt{scsExtra, edits, labelled, corpusS3(n3, "1", "auto", 2, canaryDev()), corpusS3(n4, "50%", "auto", 2, canaryDev()), corpusS3(n4, "2", "manual", 1, canaryDev())}
 	}
 	runWorld(t, run, scs, []func(*w.MonCtx){w.MonC04}, 0)
 	requireAntecedents(run, "C04a/new-template-create", "C04c/active-sync-during-canary", "C04d/label-expected", "C04b/selection")
